@@ -116,13 +116,15 @@ class ClientVisitor:
         # Build docstring for APIClient
         docstring_lines = []
         # Add API title and version
-        docstring_lines.append(f"{spec.title} (version {spec.version})")
+        # Title and version are spec text as well: keep them inert inside the docstring
+        title_clean = f"{spec.title} (version {spec.version})".replace("\\", "\\\\").replace('"""', "'")
+        docstring_lines.append(title_clean.replace("\x00", " "))
         # Add API description if present
         if getattr(spec, "description", None):
             desc = spec.description
             if desc is not None:
                 # Remove triple quotes, escape backslashes, and dedent
-                desc_clean = desc.replace('"""', "'").replace("'''", "'").replace("\\", "\\\\").strip()
+                desc_clean = desc.replace('"""', "'").replace("'''", "'").replace("\\", "\\\\").replace("\x00", " ").strip()
                 desc_clean = textwrap.dedent(desc_clean)
                 docstring_lines.append("")
                 docstring_lines.append(desc_clean)
